@@ -1,5 +1,6 @@
 import re
 import ast
+import torch
 
 __all__ = ["get_attr", "set_attr", "del_attr"]
 
@@ -23,19 +24,44 @@ def _get_attr(obj, names):
     return _traverse_attr(obj, names, attrfcn, dictfcn, listfcn)
 
 def _set_attr(obj, names, val):
-    attrfcn = lambda obj, name: setattr(obj, name, val)
+    attrfcn = lambda obj, name: _setattr_keep_slot(obj, name, val)
     dictfcn = lambda obj, key: obj.__setitem__(key, val)
     listfcn = lambda obj, key: obj.__setitem__(key, val)
     return _traverse_attr(obj, names, attrfcn, dictfcn, listfcn)
 
 def _del_attr(obj, names):
-    attrfcn = lambda obj, name: delattr(obj, name)
+    attrfcn = lambda obj, name: _delattr_keep_slot(obj, name)
     dictfcn = lambda obj, key: obj.__delitem__(key)
 
     def listfcn(obj, key):
         obj.__delitem__(key)
         obj.insert(key, None)  # to preserve the length
     return _traverse_attr(obj, names, attrfcn, dictfcn, listfcn)
+
+
+def _is_registered_param(obj, name):
+    # torch.nn.Module keeps its registered parameters in the ``_parameters`` dict
+    return isinstance(obj, torch.nn.Module) and name in obj._parameters
+
+def _setattr_keep_slot(obj, name, val):
+    # A plain tensor cannot be assigned to the name of a registered parameter.
+    # Shadow the parameter with a plain attribute and keep its slot registered
+    # (as None), so that assigning a Parameter to the name later puts it back
+    # at its original position in the module's parameters.
+    if _is_registered_param(obj, name) and isinstance(val, torch.Tensor) and \
+            not isinstance(val, torch.nn.Parameter):
+        obj._parameters[name] = None
+        obj.__dict__[name] = val
+    else:
+        setattr(obj, name, val)
+
+def _delattr_keep_slot(obj, name):
+    # deleting a registered parameter keeps its slot, see _setattr_keep_slot
+    if _is_registered_param(obj, name):
+        obj._parameters[name] = None
+        obj.__dict__.pop(name, None)
+    else:
+        delattr(obj, name)
 
 
 def _preproc_name(name):
